@@ -174,6 +174,11 @@ fn ranges(rep: &Report) {
         struct_map("Elixir.Range", vec![("first", int(1)), ("last", int(2))]), struct_map("Elixir.Date", vec![("first", int(1)), ("last", int(2)), ("step", int(1))]),
         OwnedTerm::Tuple(vec![int(1), int(2)]), OwnedTerm::Nil, map_of(vec![(atom("first"), int(1)), (atom("last"), int(2)), (atom("step"), int(1))]),
     ];
+    let mut bads = bads;
+    // the struct tag is an atom: the module's name as a binary, a string or a list of bytes is another term
+    for tag in [OwnedTerm::Binary(b"Elixir.Range".to_vec()), OwnedTerm::String("Elixir.Range".into()), OwnedTerm::List(b"Elixir.Range".iter().map(|&b| int(b as i64)).collect()), OwnedTerm::Tuple(vec![atom("Elixir.Range")])] {
+        if let OwnedTerm::Map(mut m) = good(int(1), int(2), int(1)) { m.insert(atom("__struct__"), tag); bads.push(OwnedTerm::Map(m)); }
+    }
     for t in bads {
         rep.add("evaluations", 1);
         if let Some(r) = ElixirRange::from_term(&t) { rep.violation("range fabricated from a term of the wrong shape", json!({"term": crate::denote::denote(&t).short(), "got": format!("{:?}", r)})); }
@@ -466,6 +471,10 @@ fn builders_and_proplists(rep: &Report) {
             let dup_free = (0..keys.len()).all(|i| (0..i).all(|j| keys[i] != keys[j]));
             let term = OwnedTerm::List(pl.clone());
             let m = match term.proplist_to_map() { Ok(m) => m, Err(_) => { rep.violation("well-formed proplist refused", json!({"n": n})); continue; } };
+            // the recursive conversion of a flat proplist (duplicate keys included) is the same map
+            if let Ok(OwnedTerm::Map(r)) = term.to_map_recursive() {
+                if OwnedTerm::Map(r.clone()) != m { rep.violation("to_map_recursive and proplist_to_map turn one proplist into different maps", json!({"proplist": crate::denote::denote(&term).short(), "proplist_to_map": crate::denote::denote(&m).short(), "to_map_recursive": crate::denote::denote(&OwnedTerm::Map(r)).short()})); }
+            }
             if dup_free {
                 let want: BTreeMap<OwnedTerm, OwnedTerm> = pl.iter().map(|e| (key_of(e), val_of(e))).collect();
                 if m != OwnedTerm::Map(want.clone()) { rep.violation("proplist to map loses or alters an entry", json!({"proplist": crate::denote::denote(&term).short(), "map": crate::denote::denote(&m).short()})); }
